@@ -236,6 +236,9 @@ func credState(e *Exchange) (idOK, secretOK, idNone, secretNone bool) {
 func (o *Oracle) judgeBackChannel(e *Exchange, ep string, methodOK bool) {
 	idOK, secOK, idNone, secNone := credState(e)
 	calls := l3Count(e)
+	if e.Overlap {
+		calls = 0 // the identity-provider calls seen during this request may be the overlapping request's
+	}
 	body := string(e.RespBody)
 	if !methodOK {
 		o.res.cover("C08.A3|" + ep + "|" + e.Method)
